@@ -10,14 +10,15 @@ extern "C" size_t __sanitizer_get_current_allocated_bytes(void);   // exported b
 #include "wrapcap.h"
 #include "wrapObj.h"
 #include "wrapOther.h"
+#include "wrapStamp.h"
 #include "wrapalpha_Item.h"
 #include "wrapbeta_Item.h"
 #include "wrapcap_beta.h"
 extern "C" void CAP_ShroudCopyStringAndFree(CAP_SHROUD_array *data, char *c_var, size_t c_var_len);
 extern "C" void CAP_ShroudCopyArray(CAP_SHROUD_array *data, void *c_var, size_t c_var_size);
-struct H { int type; CAP_SHROUD_capsule_data cap; CAP_SHROUD_array arr; };   // type 1 Obj, 2 Other, 3 ints, 4 string, 6 malloc'ed char *, 7 new'ed std::string, 8 malloc'ed doubles, 9 alpha::Item, 10 beta::Item
+struct H { int type; CAP_SHROUD_capsule_data cap; CAP_SHROUD_array arr; int expect_owned; };   // expect_owned: created by an operation that hands the object to the caller   // type 1 Obj, 2 Other, 3 ints, 4 string, 6 malloc'ed char *, 7 new'ed std::string, 8 malloc'ed doubles, 9 alpha::Item, 10 beta::Item, 11 Stamp (no destructor wrapper)
 static std::vector<H> hs;
-static CAP_SHROUD_capsule_data *capsule(H &h) { return (h.type == 1 || h.type == 2 || h.type == 9 || h.type == 10) ? &h.cap : &h.arr.cxx; }
+static CAP_SHROUD_capsule_data *capsule(H &h) { return (h.type == 1 || h.type == 2 || h.type == 9 || h.type == 10 || h.type == 11) ? &h.cap : &h.arr.cxx; }
 int main() {
   char line[256];
   int opno = 0;
@@ -30,10 +31,11 @@ int main() {
     if (n < 1) continue;
     long val = 0;
     if (!std::strcmp(cmd, "new")) {            // a: kind
-      H h; std::memset(&h, 0, sizeof h); h.type = a;
+      H h; std::memset(&h, 0, sizeof h); h.type = a; h.expect_owned = 1;
       if (a == 1) { CAP_Obj c; if (b % 3 == 0) CAP_Obj_ctor_0(&c); else if (b % 3 == 1) CAP_Obj_ctor_1(b, &c); else CAP_make(b, &c); h.cap.addr = c.addr; h.cap.idtor = c.idtor; }
       else if (a == 2) { CAP_Other c; if (b % 2) CAP_Other_ctor(&c); else CAP_make_other(&c); h.cap.addr = c.addr; h.cap.idtor = c.idtor; }
       else if (a == 3) { CAP_newints_bufferify(&h.arr, 3 + b % 4); }
+      else if (a == 11) { CAP_Stamp c; if (b % 3 == 0) CAP_Stamp_ctor(b, &c); else if (b % 3 == 1) CAP_make_stamp(b, &c); else CAP_current_stamp(&c); h.cap.addr = c.addr; h.cap.idtor = c.idtor; }
       else if (a == 9) { CAP_alpha_Item c; CAP_alpha_Item_ctor(&c); h.cap.addr = c.addr; h.cap.idtor = c.idtor; }
       else if (a == 10) { CAP_beta_Item c; if (b % 2) CAP_beta_Item_ctor(&c); else CAP_beta_make_item(&c); h.cap.addr = c.addr; h.cap.idtor = c.idtor; }
       else if (a == 6) { CAP_dupname_bufferify(b, &h.arr); }
@@ -51,13 +53,14 @@ int main() {
       H &h = hs.at(a);
       if (h.type == 1) { CAP_Obj c; c.addr = h.cap.addr; c.idtor = h.cap.idtor; val = CAP_Obj_get(&c); }
       else if (h.type == 2) { CAP_Other c; c.addr = h.cap.addr; c.idtor = h.cap.idtor; val = CAP_Other_get(&c); }
+      else if (h.type == 11) { CAP_Stamp c; c.addr = h.cap.addr; c.idtor = h.cap.idtor; val = CAP_Stamp_get(&c); }
       else if (h.type == 9) { CAP_alpha_Item c; c.addr = h.cap.addr; c.idtor = h.cap.idtor; val = CAP_alpha_Item_get(&c); }
       else if (h.type == 10) { CAP_beta_Item c; c.addr = h.cap.addr; c.idtor = h.cap.idtor; val = CAP_beta_Item_get(&c); }
       else if (h.type == 3) { val = ((int *)h.arr.cxx.addr)[0]; }
       else if (h.type == 6) { val = std::strlen((const char *)h.arr.cxx.addr); }
       else if (h.type == 8) { val = (long)((double *)h.arr.cxx.addr)[0]; }
       else { val = ((volatile unsigned char *)h.arr.cxx.addr)[8] >= 0; }   // a read inside the std::string object (instrumented here; libstdc++ is not)
-      if ((h.type == 1 || h.type == 2 || h.type == 9 || h.type == 10) && val == -777) { std::fflush(stdout); std::abort(); }   // the object says it has been released
+      if ((h.type == 1 || h.type == 2 || h.type == 9 || h.type == 10 || h.type == 11) && val == -777) { std::fflush(stdout); std::abort(); }   // the object says it has been released
     } else if (!std::strcmp(cmd, "dtor")) {
       H &h = hs.at(a);
       if (h.type == 1) { CAP_Obj c; c.addr = h.cap.addr; c.idtor = h.cap.idtor; CAP_Obj_delete(&c); h.cap.addr = c.addr; h.cap.idtor = c.idtor; }
@@ -68,7 +71,8 @@ int main() {
     } else if (!std::strcmp(cmd, "release") || !std::strcmp(cmd, "copyfree")) {
       // release: the generated release function; copyfree (string result): the copy-out helper copies and releases
       H &h = hs.at(a);
-      int owned = (capsule(h)->idtor != 0 && capsule(h)->addr != 0);
+      // (what the caller owns is decided by the operation that created the handle, not by the release code the wrapper stored)
+      int owned = (h.expect_owned && capsule(h)->addr != 0);
       int was_ints = (h.type == 3 && owned);
       size_t before = __sanitizer_get_current_allocated_bytes();
       if (!std::strcmp(cmd, "release")) CAP_SHROUD_memory_destructor(capsule(h));
@@ -77,7 +81,7 @@ int main() {
       if (was_ints) --counters.ints_live;
       // the released handle is cleared (this is what makes a second release a no-op) and a caller-owned heap result was given back
       if (capsule(h)->addr != 0 || capsule(h)->idtor != 0) { std::printf("op %d notcleared\n", opno); std::fflush(stdout); return 5; }
-      if (owned && (h.type == 3 || h.type == 4 || h.type == 6 || h.type == 7 || h.type == 8 || h.type == 9 || h.type == 10) && !(after < before)) { std::printf("op %d notfreed\n", opno); std::fflush(stdout); return 5; }
+      if (owned && (h.type == 3 || h.type == 4 || h.type == 6 || h.type == 7 || h.type == 8 || h.type == 9 || h.type == 10 || h.type == 11) && !(after < before)) { std::printf("op %d notfreed\n", opno); std::fflush(stdout); return 5; }
     } else if (!std::strcmp(cmd, "tmp")) {
       // wrappers that convert arguments through temporary buffers: a = text / element count, b = room in the caller's buffer.
       // The caller's buffers are exact-size heap blocks, so that AddressSanitizer sees any access beyond them; afterwards
